@@ -230,3 +230,69 @@ def check_manager_wiring(acc: Acc) -> None:
         if seen.get("workers") != workers or seen.get("max_fails") != mf or rv != status or seen.get("fn") is not wrun.start_listen:
             acc.violation("cli-wiring-manager", f"--workers {workers} --max-fails {mf}: manager saw {seen}, run_worker returned {rv!r} (manager status {status!r})", {"wiring": [workers, mf, status]})
     acc.sample({"cli_wiring": "run_worker -> ProcessManager(args) for workers x max_fails x status"})
+
+
+def check_watcher_wiring(acc: Acc) -> None:
+    """ProcessManager(args, observer=...): with --reload the observer gets exactly one FileWatcher for '.'
+    (recursive) whose callback queues a reload-all on the manager's own action queue and whose gitignore
+    switch is `not --do-not-use-gitignore`; without --reload nothing is scheduled."""
+    import taskiq.cli.worker.process_manager as pm
+    from taskiq.cli.worker.args import WorkerArgs
+
+    class FakeObserver:
+        def __init__(self) -> None:
+            self.calls: List[Any] = []
+
+        def schedule(self, handler: Any, path: Any = None, recursive: Any = None, **kw: Any) -> None:
+            self.calls.append((handler, path, recursive, kw))
+
+    class FakeSignalMod:
+        SIGINT, SIGTERM, SIGHUP = pm.signal.SIGINT, pm.signal.SIGTERM, pm.signal.SIGHUP
+
+        def signal(self, signum: Any, handler: Any) -> None:
+            pass
+
+    class FakeQ:
+        def __init__(self, *a: Any) -> None:
+            self.items: List[Any] = []
+
+        def put(self, item: Any) -> None:
+            self.items.append(item)
+
+    class FakeFileWatcher:
+        def __init__(self, callback: Any = None, use_gitignore: Any = "<default>", **callback_kwargs: Any) -> None:
+            self.callback, self.use_gitignore, self.callback_kwargs = callback, use_gitignore, callback_kwargs
+
+    for reload_, no_git, with_observer in itertools.product((True, False), (True, False), (True, False)):
+        saved = (pm.signal, pm.Queue, pm.FileWatcher)
+        pm.signal, pm.Queue, pm.FileWatcher = FakeSignalMod(), FakeQ, FakeFileWatcher  # type: ignore[assignment,misc]
+        try:
+            cli = ["m:b", "--no-configure-logging"] + (["--reload"] if reload_ else []) + (["--do-not-use-gitignore"] if no_git else [])
+            args = WorkerArgs.from_cli(cli)
+            obs = FakeObserver() if with_observer else None
+            mgr = pm.ProcessManager(args, worker_function=lambda a: None, observer=obs)
+        finally:
+            pm.signal, pm.Queue, pm.FileWatcher = saved  # type: ignore[misc]
+        acc.evaluations += 1
+        acc.paths += 1
+        acc.count("wiring_cases")
+        acc.outcome(("watcher-wiring", reload_, no_git, with_observer))
+        calls = obs.calls if obs is not None else []
+        case = {"watcher_wiring": [reload_, no_git, with_observer]}
+        if not (reload_ and with_observer):
+            if calls:
+                acc.violation("cli-wiring-watcher", f"{cli}: a file watcher was scheduled although reload is off: {calls}", case)
+            continue
+        ok = len(calls) == 1
+        if ok:
+            handler, path, recursive, kw = calls[0]
+            ok = (isinstance(handler, FakeFileWatcher) and path == "." and recursive is True
+                  and handler.callback is pm.schedule_workers_reload
+                  and handler.callback_kwargs.get("action_queue") is mgr.action_queue
+                  and handler.use_gitignore is (not no_git))
+            if ok:
+                # a file change: the callback must queue one reload-all on the manager's queue
+                handler.callback(**handler.callback_kwargs)
+                ok = [type(x).__name__ for x in mgr.action_queue.items] == ["ReloadAllAction"]
+        if not ok:
+            acc.violation("cli-wiring-watcher", f"{cli}: observer.schedule calls {[(type(c[0]).__name__, getattr(c[0], 'use_gitignore', None), c[1], c[2]) for c in calls]}, queue {getattr(mgr.action_queue, 'items', None)}", case)
